@@ -38,6 +38,8 @@ func (c *c14) Plan(seed uint64, tier string, worker, workers, idx int) *Plan {
 	}
 	nExt := r.Range(1, 10)
 	p.Slots = 6
+	template := r.Intn(24) // 0-2 crowd, 3-6 chain, else free histories
+	g.charsetNamesOn = template >= 7 && r.Chance(1, 3)
 	slot := 0
 	battery := func(ops []Op, count int, withFaults bool) []Op {
 		for i := 0; i < count; i++ {
@@ -66,7 +68,7 @@ func (c *c14) Plan(seed uint64, tier string, worker, workers, idx int) *Plan {
 			if !all && !r.Chance(1, 3) {
 				continue
 			}
-			names := e.Names()
+			names := lookupNames(e)
 			for _, nm := range names {
 				if all || r.Chance(1, 2) {
 					op := Op{Kind: "lookup", Name: nm, Ext: e}
@@ -78,8 +80,8 @@ func (c *c14) Plan(seed uint64, tier string, worker, workers, idx int) *Plan {
 				}
 			}
 		}
-		if r.Chance(1, 2) {
-			ops = append(ops, Op{Kind: "lookup", Name: parents[2+r.Intn(len(parents)-2)].Name})
+		if nm := parents[2+r.Intn(len(parents)-2)].Name; r.Chance(1, 2) && !(g.charsetNamesOn && lib.IsCharsetName(nm)) {
+			ops = append(ops, Op{Kind: "lookup", Name: nm})
 		}
 		if r.Chance(1, 6) {
 			ops = append(ops, Op{Kind: "lookup", Name: fmt.Sprintf("x-verif/e%d", g.next+3)}) // not registered (yet)
@@ -92,7 +94,7 @@ func (c *c14) Plan(seed uint64, tier string, worker, workers, idx int) *Plan {
 		}
 		return ops
 	}
-	if r.Chance(1, 8) {
+	if template < 3 {
 		// a crowd: many extensions on ONE parent (slice growth, counters, small fixed
 		// arrays), several of them accepting the same input; the newest accepting one wins
 		in := universe[r.Intn(len(universe))]
@@ -115,10 +117,11 @@ func (c *c14) Plan(seed uint64, tier string, worker, workers, idx int) *Plan {
 				ops = append(ops, Op{Kind: "detect", In: &in})
 				other := universe[r.Intn(len(universe))]
 				ops = append(ops, Op{Kind: "detect", In: &other})
-				ops = append(ops, Op{Kind: "lookup", Name: e.Mime, Ext: e})
+				if !lib.IsCharsetName(e.Mime) {
+					ops = append(ops, Op{Kind: "lookup", Name: e.Mime, Ext: e})
+				}
 				old := g.made[r.Intn(len(g.made))]
-				if old.Mime != e.Mime {
-					names := old.Names()
+				if names := lookupNames(old); old.Mime != e.Mime && len(names) > 0 {
 					ops = append(ops, Op{Kind: "lookup", Name: names[r.Intn(len(names))], Ext: old})
 				}
 			}
@@ -127,7 +130,7 @@ func (c *c14) Plan(seed uint64, tier string, worker, workers, idx int) *Plan {
 		p.Tasks = [][]Op{ops}
 		return p
 	}
-	if r.Chance(1, 6) {
+	if template < 7 {
 		// a chain of nested accepting extensions hanging at some level of one input's
 		// path: verdicts many levels below the root, long ancestor chains
 		in := universe[r.Intn(len(universe))]
@@ -148,7 +151,9 @@ func (c *c14) Plan(seed uint64, tier string, worker, workers, idx int) *Plan {
 			if r.Chance(1, 2) {
 				ops = append(ops, Op{Kind: "reader", In: &in, Del: randDelivery(r, len(in.Bytes()), 0)})
 			}
-			ops = append(ops, Op{Kind: "lookup", Name: e.Mime, Ext: e})
+			if !lib.IsCharsetName(e.Mime) {
+				ops = append(ops, Op{Kind: "lookup", Name: e.Mime, Ext: e})
+			}
 		}
 		ops = battery(ops, r.Range(1, 4), false)
 		p.Tasks = [][]Op{ops}
@@ -168,7 +173,7 @@ func (c *c14) Plan(seed uint64, tier string, worker, workers, idx int) *Plan {
 			n0 := len(ops)
 			ops = lookups(ops, false)
 			// the extension just registered is always looked up by its type
-			if len(ops) == n0 || r.Chance(1, 2) {
+			if (len(ops) == n0 || r.Chance(1, 2)) && !lib.IsCharsetName(e.Mime) {
 				ops = append(ops, Op{Kind: "lookup", Name: e.Mime, Ext: e})
 			}
 			ops = uses(ops)
